@@ -449,6 +449,7 @@ func TestVerifC05(t *testing.T) {
 	c05Reuse(c, mc.Pick(c, 3, 4))
 	c05Stream(c, mc.Pick(c, 4, 5))
 	c05Config(c, mc.Pick(c, 3, 4))
+	c05Values(c, mc.Pick(c, 4, 5))
 	if code := c.Finish(); code != 0 {
 		os.Exit(code)
 	}
